@@ -3,6 +3,7 @@ module verif
 go 1.23.0
 
 require (
+	github.com/a-h/parse v0.0.0-20250122154542-74294addb73e
 	github.com/a-h/templ v0.0.0
 	github.com/andybalholm/brotli v1.1.0
 	golang.org/x/net v0.37.0
@@ -11,7 +12,6 @@ require (
 )
 
 require (
-	github.com/a-h/parse v0.0.0-20250122154542-74294addb73e // indirect
 	github.com/cenkalti/backoff/v4 v4.3.0 // indirect
 	github.com/cli/browser v1.3.0 // indirect
 	github.com/fsnotify/fsnotify v1.7.0 // indirect
